@@ -149,7 +149,7 @@ pub fn worker(ctx: &WorkerCtx) -> WorkerResult {
     }
     match ctx.id.as_str() {
         "C02" => return crash::worker(ctx, "C02", 300, 8000),
-        "C16" => return crash::worker(ctx, "C16", 360, 8000),
+        "C16" => return crash::worker(ctx, "C16", 360, 2500),
         "C12" => return logfmt::worker(ctx),
         "C08" => return fault::worker(ctx),
         "C15" => return corrupt::worker(ctx),
